@@ -330,12 +330,11 @@ def run(ctx):
     for e in g:
         lp = e.loops()
         be_now = sf.heap.get(T.attr(SELF, "big_edges"), T.attr(SELF, "big_edges"))
-        if len(lp) == 1 and lp[0][2] in (T.call(("m", "items"), (T.attr(SELF, "big_edges"),)), T.call(("m", "items"), (be_now,))) \
-                and e.conds() == [T.attr(SELF, "gt")]:
-            b = ("bv", lp[0][1])
+        ro = rules.roles(lp[0]) if len(lp) == 1 else None
+        if ro is not None and ro.kind in ("items", "values") and ro.base in (T.attr(SELF, "big_edges"), be_now) and e.conds() == [T.attr(SELF, "gt")]:
             k = ("bv", 0)
-            want = T.call("mean", (("map", T.attr(T.idx(T.attr(SELF, "edges"), k), "gt"), k, T.attr(T.idx(b, T.num(1)), "edges"), T.TRUE),))
-            ok = e.target == T.attr(T.idx(b, T.num(1)), "gt") and T.alpha(e.value) == T.alpha(want)
+            want = T.call("mean", (("map", T.attr(T.idx(T.attr(SELF, "edges"), k), "gt"), k, T.attr(ro.val, "edges"), T.TRUE),))
+            ok = e.target == T.attr(ro.val, "gt") and T.alpha(e.value) == T.alpha(want)
     ctx.check(ok, "FORM", f"{fr.qualname} / FORM / big_edge.gt = mean(edges[eid].gt for eid in big_edge.edges) when gt", ctx.where(fr),
               "mean over the interface's own mesh edges", "with gt=True the interface reference is not the mean of its own mesh edges' densities")
 
